@@ -86,6 +86,13 @@ func (c *c05) conform(r jsonapi.Resource, entry string, partial bool) *core.Viol
 			_, isA := attrs[f]
 			_, isR := rels[f]
 
+			if !partial && !isA && !isR && ts.Struct && strings.HasPrefix(f, "later") {
+				// an attribute the schema gave a struct-backed type after the struct was
+				// written: a wrapped struct cannot hold it, and the statement speaks of the
+				// attributes a result holds, not of completeness
+				continue
+			}
+
 			if !partial && !isA && !isR {
 				v = viol(p05, "fields-of-type", entry, "missing-field", "%s returned a %q resource without its field %q", entry, tn, f)
 				return
@@ -335,6 +342,45 @@ func runC05(t *core.Tape, st *core.Stats) *core.Violation {
 
 			t.Logf("schema edited: type %q removed, type %q added", gone, neu.Name)
 			st.Inc("probe:schema-edited-between-deliveries")
+		}
+
+		// ... or a type gets one more attribute (Schema.AddAttr, as a deployment does),
+		// and the sender, already updated, sends it: for a soft type a new field like any
+		// other; a struct-backed type then says more than its struct can hold
+		if d > 0 && t.Bool(1, 6) {
+			k := t.Draw(len(c.spec.Types))
+			ts := c.spec.Types[k]
+			name := fmt.Sprintf("later%d", d)
+
+			var aerr error
+
+			if p := core.Call(func() {
+				aerr = c.schema.AddAttr(ts.Name, jsonapi.Attr{Name: name, Type: jsonapi.AttrTypeInt})
+			}); p != nil || aerr != nil {
+				return nil // editing a schema is C14's business
+			}
+
+			{
+				if ts.Struct {
+					_ = ts.GoStruct() // the struct type is what it was: cached before the spec grows
+				}
+
+				edited := *ts
+				edited.Attrs = append(append([]world.AttrSpec{}, ts.Attrs...), world.AttrSpec{Name: name, Kind: world.KInt})
+				types := append([]*world.TypeSpec{}, c.spec.Types...)
+				types[k] = &edited
+				c.spec = &world.SchemaSpec{Types: types}
+			}
+
+			msg = addAttribute(msg, ts.Name, name, 7)
+			sub = addAttribute(sub, ts.Name, name, 7)
+
+			t.Logf("schema edited: attribute %q added to type %q (struct-backed: %v); the sender sends it from now on", name, ts.Name, ts.Struct)
+			st.Inc("probe:attribute-added-between-deliveries")
+
+			if ts.Struct {
+				st.Inc("probe:attribute-added-to-a-struct-backed-type")
+			}
 		}
 
 		// 1. the whole message through the transport
@@ -621,6 +667,61 @@ func clipBytes(b []byte) []byte {
 	}
 
 	return b
+}
+
+// addAttribute adds a member to the attributes object of every resource object of
+// the given type in a payload (what an updated sender does); the payload is
+// returned as it was when it cannot be read.
+func addAttribute(payload []byte, typeName, attr string, val interface{}) []byte {
+	dec := json.NewDecoder(bytes.NewReader(payload))
+	dec.UseNumber()
+
+	var root interface{}
+	if dec.Decode(&root) != nil {
+		return payload
+	}
+
+	var walk func(v interface{}, depth int)
+
+	walk = func(v interface{}, depth int) {
+		if depth > 12 {
+			return
+		}
+
+		switch x := v.(type) {
+		case []interface{}:
+			for _, e := range x {
+				walk(e, depth+1)
+			}
+		case map[string]interface{}:
+			if tn, ok := x["type"].(string); ok && tn == typeName {
+				if _, isRes := x["links"]; isRes {
+					attrs, ok := x["attributes"].(map[string]interface{})
+					if !ok {
+						attrs = map[string]interface{}{}
+						x["attributes"] = attrs
+					}
+
+					attrs[attr] = val
+				}
+			}
+
+			for _, k := range sortedKeys(x) {
+				if k != "attributes" {
+					walk(x[k], depth+1)
+				}
+			}
+		}
+	}
+
+	walk(root, 0)
+
+	out, err := json.Marshal(root)
+	if err != nil {
+		return payload
+	}
+
+	return out
 }
 
 // panicSite is the site class of a panic for signatures. Normally the innermost
